@@ -454,6 +454,8 @@ class SpecGen(object):
         self.fields = list(fields)
         self._n = 0
         self.no_name_reuse = False
+        self.no_callables = False
+        self.used_names = set()
         self.deleted_names = set()
         # columns (table-independent: (app, model, field)) that may hold
         # duplicate values because a whole column was filled with one initial
@@ -489,6 +491,13 @@ class SpecGen(object):
         for i, name in enumerate(names):
             app = self.apps[0] if len(self.apps) == 1 or i == 0 \
                 else rng.choice(self.apps)
+            if len(self.apps) > 1 and i > 0 and rng.random() < 0.2:
+                # hostile: the same model name in two apps
+                other = [a for a in self.apps if a != app and spec[a]]
+                if other:
+                    name = rng.choice(list(spec[other[0]]))
+                    if name in spec[app]:
+                        continue
             spec[app][name] = {'fields': [], 'meta': {}}
         for app, mods in spec.items():
             for mname, ms in mods.items():
@@ -569,7 +578,8 @@ class SpecGen(object):
                     pass
                 return e
             if not fdef.get('null') or rng.random() < 0.3:
-                e['initial'] = gen_initial(rng, fdef)
+                e['initial'] = gen_initial(rng, fdef,
+                                           not self.no_callables)
                 if fdef.get('unique') and self.rows:
                     # a constant fill of a UNIQUE column legitimately fails
                     # on >1 rows: outside the workload
@@ -644,7 +654,8 @@ class SpecGen(object):
                                 continue
                             e['initial'] = 1
                         else:
-                            e['initial'] = gen_initial(rng, fdef)
+                            e['initial'] = gen_initial(
+                                rng, fdef, not self.no_callables)
                         self.dup.add((app, mname, name))
                 elif attr == 'db_index':
                     e['attrs']['db_index'] = not fdef.get(
